@@ -1,11 +1,13 @@
 """C07 - executor protocol property, decided on E-SIM executions of the real code by the TLA+ monitor Mon_Exec[C07]."""
 import os, sys
 sys.path.insert(0, os.path.dirname(os.path.dirname(os.path.abspath(__file__))))
-from vlib import runner
-from checks import exec_common, exec_findings
+from vlib import runner, tlc
+from checks import exec_common, exec_findings, c07_real
 
 
 def run(ctx):
+    tlc.stage(ctx.work)
+    c07_real.run(ctx)
     exec_common.run_property(ctx, "C07", ['timeout', 'timeout', 'mixed', 'memleak', 'stalled_manager'], 300, 3000, classify=exec_findings.classify)
 
 
